@@ -58,3 +58,19 @@ V('C13', 'grouping-atoms-plain-set', 'edb/edgeql/desugar_group.py', 'edb.edgeql.
 # negative control: params first or last does not matter for scope
 V('C13', 'neg-param-ctes-after-ptr', 'edb/pgsql/compiler/clauses.py', 'edb.pgsql.compiler.clauses.insert_ctes',
   '        *ctx.param_ctes.values(),\n        *ctx.ptr_inheritance_ctes.values(),\n', '        *ctx.ptr_inheritance_ctes.values(),\n        *ctx.param_ctes.values(),\n', None)
+
+V('C13', 'overlay-stack-not-lateral', 'edb/pgsql/compiler/relctx.py', 'edb.pgsql.compiler.relctx.range_for_material_objtype',
+  '''            typeref.name_hint,
+            lateral=lateral,
+            path_id=path_id,
+            typeref=typeref,
+            tag='overlay-stack',''', '''            typeref.name_hint,
+            path_id=path_id,
+            typeref=typeref,
+            tag='overlay-stack',''', 'C13.R7', 'range_for_material_objtype->range_from_queryset:lateral')
+V('C13', 'detached-params-without-globals', 'edb/pgsql/compiler/__init__.py', 'edb.pgsql.compiler.compile_ir_to_sql_tree',
+  '                for param in ctx.env.query_params\n', '                for param in query_params\n', 'C13.R7', 'detached-params-cover-argmap')
+V('C13', 'overlay-merge-through-set', 'edb/pgsql/compiler/dml.py', 'edb.pgsql.compiler.dml.merge_overlays_globally',
+  '''            n_els = (
+                type_overlay.get(k, ()) + tuple(e for e in v if e not in els)
+            )''', '''            n_els = type_overlay.get(k, ()) + tuple(set(v) - els)''', 'C13.R2', 'merge_overlays_globally:iter=set(v) - els')
